@@ -1,4 +1,4 @@
 SPECIFICATION GenSpec
-CONSTANTS Groups = 16 NameLen2 = 12 NameLen4 = 6 Chunk = 4096 T3Dense = 131071
+CONSTANTS Groups = 16 NameLen2 = 12 NameLen4 = 6 Chunk = 4096 T3Dense = 131071 AmbrAllPairs = FALSE
 INVARIANTS Emit GenSane
 CHECK_DEADLOCK FALSE
